@@ -93,7 +93,7 @@ func runC12C(e *Env, r *core.Run) {
 	}
 	r.Ev("cfg tasks=%d requests=%d ctx=%s", ntasks, total, core.Hex8(ctx))
 	sim := e.Sim
-	sim.Begin(rt.Config{Draw: func(n int) int { return t.Draw(core.SS, n) }, EstYields: total * 300, MaxYields: uint64(total*600000 + 100000)})
+	sim.Begin(e.SimConfig(func(n int) int { return t.Draw(core.SS, n) }, total*300, uint64(total*600000+100000)))
 	logs := make([]*core.Log, ntasks)
 	for i := range logs {
 		logs[i] = r.NewLog(i)
